@@ -599,9 +599,11 @@ func main() {
 						}
 						evs := make([]Event, 0, len(c.Ops)+1)
 						o := c.Opt
+						var be Event
+						r.by.observe(&be)
 						evs = append(evs, Event{Op: "reset", Case: int(id), Sig: c.Sig, Opt: &o, Init: c.Init,
 							Logs: map[string][][][]int{"A": {}, "B": {}}, Fnil: map[string]bool{"A": true, "B": true},
-							By: map[string][][][]int{"A": {}, "B": {}}})
+							By: be.Logs})
 						norm(&evs[0])
 						for _, m := range methods {
 							if f := c.Init[m]; f != "nil" {
